@@ -67,7 +67,8 @@ def plan_for(tier: str, seed: int, i: int) -> dict:
     return {"prop": ID, "proto": proto, "mib": sorted(mib.items()), "op": op, "oids": oids, "root": base,
             "forms": forms, "lfseed": rng.getrandbits(40),
             "ei": rng.choice([0, 0, 0, 1, 127, 128, 32768, 2**31 - 1, -1, -(2**31)]),
-            "maxrep": rng.choice([1, 3, 10]), "clock": gen.gen_clock(rng)}
+            "maxrep": rng.choice([1, 3, 10]), "clock": gen.gen_clock(rng),
+            "agent_max_size": rng_for(seed, ID, tier + ":mms", i).choice([65507, 65507, 484, 1472, 2**31 - 1])}
 
 
 def valid(plan: dict) -> bool:
@@ -93,6 +94,7 @@ def execute(plan: dict) -> dict:
     mib = dict(plan["mib"])
     agent = w.add_agent(agent_for(proto, mib))
     agent.max_bulk_bindings = 120
+    agent.announce_max_size = int(plan.get("agent_max_size", 65507))
     forms = plan["forms"]
     cnt = [0]
     used_forms = set()
